@@ -30,6 +30,18 @@ import logging
 from ..model import SERRecord, TraceDriver
 
 
+def _string_keys(obj: Any) -> Any:
+    """Copy of ``obj`` in which every mapping key is a string."""
+    if isinstance(obj, dict):
+        return {
+            (k if isinstance(k, str) else str(k)): _string_keys(v)
+            for k, v in obj.items()
+        }
+    if isinstance(obj, (list, tuple)):
+        return [_string_keys(v) for v in obj]
+    return obj
+
+
 class JsonlTraceDriver(TraceDriver):
     """Persist SER records to ``*.ser.jsonl`` files."""
 
@@ -193,7 +205,11 @@ class JsonlTraceDriver(TraceDriver):
                 for k, v in record.items()
                 if isinstance(v, (str, int, float, bool, dict, list))
             }
-            self._file.write(json.dumps(cleaned, sort_keys=True) + "\n")
+            # Mapping keys of mixed types (legal in a context value or parameter)
+            # cannot be sorted: write them as strings instead of failing the run.
+            self._file.write(
+                json.dumps(_string_keys(cleaned), sort_keys=True) + "\n"
+            )
 
     def on_pipeline_end(self, run_id: str, summary: dict) -> None:
         if not self._file:
